@@ -127,7 +127,13 @@ def run_case(case):
         gen = bank_obj(label).read_all(addr, use_latch=bool(case.get("latch", 1)))
     else:
         v = custom_value(label, case["locs"], case.get("signed")) if case.get("locs") else VALUES[(label, case["value"])]
-        if case.get("lit"):
+        if case.get("badraw"):
+            # something that is no byte string at all where the data goes: refused before anything is sent
+            bad = {"int": len(v.locations), "true": True, "one": 1, "none": None, "float": 2.0, "str": "x" * len(v.locations)}[case["badraw"]]
+            gen = v.write_raw(addr, bad, allow_short_write=bool(case.get("short")))
+            rec["legal"] = 0
+            rec["seq"] = "write-bad"
+        elif case.get("lit"):
             # the value-level write: a number, or the MASK / TMASK literal (what is stored is for the judge to say)
             gen = v.write(addr, case["num"] if case["lit"] == "num" else case["lit"],
                           ignore_feedback=bool(case.get("ignore", 0)))
